@@ -145,6 +145,7 @@ structure Sound (cfg : Cfg) : Prop where
   ackOkChan : cfg.ackOkChan = .src
   refundChan : cfg.refundChan = .src
   refundSeq : cfg.refundSeq = true
+  deleteReports : cfg.deleteReports = true
 
 theorem inv_send (c : Ctl) (l : Ch) (p : Pkt) (key : Option (Ch × Seq)) (h : Inv c)
     (hkey : key = none ∨ key = some (l, nextSeq c l))
@@ -251,6 +252,23 @@ theorem inv_send (c : Ctl) (l : Ch) (p : Pkt) (key : Option (Ch × Seq)) (h : In
     · subst he; exact absurd hk (freshR r hr)
     · exact h.rE r hr e he hk
 
+/-- the send sequence of a channel jumps forward -/
+theorem inv_next_mono (c : Ctl) (nx : Store Ch) (h : Inv c) (hm : ∀ ch, sget c.next ch ≤ sget nx ch) :
+    Inv { c with next := nx } := by
+  constructor
+  · intro x hx; exact Nat.le_trans (h.fC x hx) (hm _)
+  · intro r hr; exact Nat.le_trans (h.fR r hr) (hm _)
+  · intro k hk; exact Nat.le_trans (h.fA k hk) (hm _)
+  · intro e he; exact Nat.le_trans (h.fE e he) (hm _)
+  · intro k hk; exact Nat.le_trans (h.fK k hk) (hm _)
+  · exact h.rNC
+  · exact h.aNC
+  · exact h.nodup
+  · exact h.rNA
+  · exact h.eData
+  · exact h.eRel
+  · exact h.rE
+
 /-- only the commitment goes away (error ack / timeout without a refund hook) -/
 theorem inv_drop (c : Ctl) (k : Ch × Seq) (h : Inv c) : Inv { c with commits := dropCommit c.commits k } := by
   constructor
@@ -320,14 +338,14 @@ theorem inv_ackOk (cfg : Cfg) (hsel : cfg.ackOkChan = .src) (c : Ctl) (k : Ch ×
   · exact h.rE
 
 theorem refundFound_src (cfg : Cfg) (hsees : cfg.refundSees = true) (hch : cfg.refundChan = .src)
-    (hseq : cfg.refundSeq = true) (c : Ctl) (k : Ch × Seq) (p : Pkt) :
+    (hseq : cfg.refundSeq = true) (hrep : cfg.deleteReports = true) (c : Ctl) (k : Ch × Seq) (p : Pkt) :
     refundFound cfg c k p = if c.rel.contains k then some k else none := by
-  simp [refundFound, hsees, hch, keyOf_src _ _ _ _ hseq]
+  simp [refundFound, hsees, hch, keyOf_src _ _ _ _ hseq, hrep]
 
 theorem inv_refund (cfg : Cfg) (c : Ctl) (k : Ch × Seq) (p : Pkt) (h : Inv c) (hk : (k, p) ∈ c.commits)
     (hsees : cfg.refundSees = true) (hconv : cfg.refundConverts = true) (hch : cfg.refundChan = .src)
-    (hseq : cfg.refundSeq = true) : Inv (refundCtl cfg c k p) := by
-  have hf := refundFound_src cfg hsees hch hseq c k p
+    (hseq : cfg.refundSeq = true) (hrep : cfg.deleteReports = true) : Inv (refundCtl cfg c k p) := by
+  have hf := refundFound_src cfg hsees hch hseq hrep c k p
   have hsub : ∀ x, x ∈ c.rel → x ≠ k → x ∈ (refundCtl cfg c k p).rel := by
     intro x hx hne
     simp only [refundCtl, hf]
@@ -401,7 +419,7 @@ theorem refundState_inv (cfg : Cfg) (hs : Sound cfg) (s s' : State) (l : Ch) (se
       split at hr
       · cases hr
       · cases hr
-        exact inv_refund cfg s.ctl _ p h hk hs.refundSees hs.refundConverts hs.refundChan hs.refundSeq
+        exact inv_refund cfg s.ctl _ p h hk hs.refundSees hs.refundConverts hs.refundChan hs.refundSeq hs.deleteReports
     | false =>
       simp only [Bool.false_eq_true, ↓reduceIte, Option.some.injEq] at hr
       subst hr
@@ -446,6 +464,17 @@ theorem step_inv (cfg : Cfg) (hs : Sound cfg) (s : State) (op : Op) (h : Inv s.c
   | reset => exact inv_init
   | chan l r => exact ⟨h.fC, h.fR, h.fA, h.fE, h.fK, h.rNC, h.aNC, h.nodup, h.rNA, h.eData, h.eRel, h.rE⟩
   | vmeta l => exact ⟨h.fC, h.fR, h.fA, h.fE, h.fK, h.rNC, h.aNC, h.nodup, h.rNA, h.eData, h.eRel, h.rE⟩
+  | seqset l n =>
+    simp only [stepWith]
+    split
+    · rename_i hlt
+      refine inv_next_mono s.ctl _ h ?_
+      intro ch
+      rw [get_set]
+      split
+      · rename_i hc; subst hc; omega
+      · exact Nat.le_refl _
+    · exact h
   | fund a t l amt =>
     simp only [stepWith]
     split <;> exact h
@@ -466,8 +495,9 @@ theorem run_inv (cfg : Cfg) (hs : Sound cfg) (ops : List Op) (s : State) (h : In
 /-! ## relation removal and frame -/
 
 theorem refund_rel (cfg : Cfg) (hsees : cfg.refundSees = true) (hch : cfg.refundChan = .src) (hseq : cfg.refundSeq = true)
+    (hrep : cfg.deleteReports = true)
     (c : Ctl) (k : Ch × Seq) (p : Pkt) : (refundCtl cfg c k p).rel = dropRel c.rel k := by
-  simp only [refundCtl, refundFound_src cfg hsees hch hseq]
+  simp only [refundCtl, refundFound_src cfg hsees hch hseq hrep]
   by_cases hin : k ∈ c.rel
   · simp [hin, dropRelOpt]
   · simp [hin, dropRelOpt, dropRel_of_not_mem _ _ hin]
@@ -486,9 +516,10 @@ structure Removes (cfg : Cfg) : Prop where
   refundSees : cfg.refundSees = true
   refundChan : cfg.refundChan = .src
   refundSeq : cfg.refundSeq = true
+  deleteReports : cfg.deleteReports = true
 
 theorem refundState_rel (cfg : Cfg) (hsees : cfg.refundSees = true) (hch : cfg.refundChan = .src)
-    (hseq : cfg.refundSeq = true) (s s' : State) (l : Ch) (seq : Seq) (p : Pkt)
+    (hseq : cfg.refundSeq = true) (hrep : cfg.deleteReports = true) (s s' : State) (l : Ch) (seq : Seq) (p : Pkt)
     (hr : refundState cfg s l seq p true = some s') : s'.ctl.rel = dropRel s.ctl.rel (l, seq) := by
   unfold refundState at hr
   split at hr
@@ -497,7 +528,7 @@ theorem refundState_rel (cfg : Cfg) (hsees : cfg.refundSees = true) (hch : cfg.r
     split at hr
     · cases hr
     · cases hr
-      exact refund_rel cfg hsees hch hseq s.ctl _ p
+      exact refund_rel cfg hsees hch hseq hrep s.ctl _ p
 
 /-- a processed settlement leaves the relation store as it was, minus the record of exactly that (channel, sequence) -/
 theorem settleState_rel (cfg : Cfg) (hR : Removes cfg) (s s' : State) (l : Ch) (seq : Seq) (p : Pkt) (mode : Mode)
@@ -509,10 +540,10 @@ theorem settleState_rel (cfg : Cfg) (hR : Removes cfg) (s s' : State) (l : Ch) (
     exact ackOk_rel cfg hR.ackOkRemoves hR.ackOkChan hR.ackOkSeq s.ctl _ p
   | ackErr =>
     simp only [settleState, hR.ackErrRefunds] at hr
-    exact refundState_rel cfg hR.refundSees hR.refundChan hR.refundSeq s s' l seq p hr
+    exact refundState_rel cfg hR.refundSees hR.refundChan hR.refundSeq hR.deleteReports s s' l seq p hr
   | timeout =>
     simp only [settleState, hR.timeoutRefunds] at hr
-    exact refundState_rel cfg hR.refundSees hR.refundChan hR.refundSeq s s' l seq p hr
+    exact refundState_rel cfg hR.refundSees hR.refundChan hR.refundSeq hR.deleteReports s s' l seq p hr
 
 theorem settle_frame (cfg : Cfg) (hR : Removes cfg) (s : State) (l : Ch) (seq : Seq) (mode : Mode) :
     (stepWith cfg s (.settle l seq mode)).2.isDone →
@@ -534,7 +565,8 @@ theorem settle_removes (cfg : Cfg) (hR : Removes cfg) (s : State) (l : Ch) (seq 
 
 theorem settle_removes_failure (cfg : Cfg) (hE : cfg.ackErrRefunds = true)
     (hT : cfg.timeoutRefunds = true) (hS : cfg.refundSees = true) (hch : cfg.refundChan = .src)
-    (hseq : cfg.refundSeq = true) (s : State) (l : Ch) (seq : Seq) (mode : Mode) (hm : mode ≠ .ackOk) :
+    (hseq : cfg.refundSeq = true) (hrep : cfg.deleteReports = true) (s : State) (l : Ch) (seq : Seq) (mode : Mode)
+    (hm : mode ≠ .ackOk) :
     (stepWith cfg s (.settle l seq mode)).2.isDone →
       (stepWith cfg s (.settle l seq mode)).1.ctl.rel = dropRel s.ctl.rel (l, seq) := by
   simp only [stepWith, settle]
@@ -550,10 +582,10 @@ theorem settle_removes_failure (cfg : Cfg) (hE : cfg.ackErrRefunds = true)
       | ackOk => exact absurd rfl hm
       | ackErr =>
         simp only [settleState, hE] at hst
-        exact refundState_rel cfg hS hch hseq s s' l seq p hst
+        exact refundState_rel cfg hS hch hseq hrep s s' l seq p hst
       | timeout =>
         simp only [settleState, hT] at hst
-        exact refundState_rel cfg hS hch hseq s s' l seq p hst
+        exact refundState_rel cfg hS hch hseq hrep s s' l seq p hst
 
 /-- whenever the success branch deletes under another prefix than the one the record is written under, a success ack
 leaves the relation store exactly as it was -/
@@ -694,7 +726,7 @@ theorem settle_refund_credits (cfg : Cfg) (hs : Sound cfg) (hE : cfg.ackErrRefun
   simp only at hp1 hp2 hp3
   have hpA : p.tok = .A := by rw [hp2, hB]
   have hin : (e.ch, e.seq) ∈ s.ctl.rel := h.eRel e he hB ⟨x, hx, hxk⟩
-  have hfound := refundFound_src cfg hs.refundSees hs.refundChan hs.refundSeq s.ctl (e.ch, e.seq) p
+  have hfound := refundFound_src cfg hs.refundSees hs.refundChan hs.refundSeq hs.deleteReports s.ctl (e.ch, e.seq) p
   have hform : refundForm cfg s.ctl (e.ch, e.seq) p = true := by
     simp [refundForm, hfound, hin, hs.refundConverts]
   have hres : resolve cfg s.ctl.vmeta false (.vA e.ch) = .base := by
@@ -717,7 +749,7 @@ theorem settle_refund_credits (cfg : Cfg) (hs : Sound cfg) (hE : cfg.ackErrRefun
   · intro k hk; rw [← hp1] at hk; exact hc2 k hk
   · intro hn1 hn2 d; rw [← hp1] at hn1 hn2 ⊢; exact hc3 hn1 hn2 d
   · simp [refundCtl, hform, hp1, hpA, hp3]
-  · exact refund_rel cfg hs.refundSees hs.refundChan hs.refundSeq s.ctl _ p
+  · exact refund_rel cfg hs.refundSees hs.refundChan hs.refundSeq hs.deleteReports s.ctl _ p
 
 /-- with bank metadata on the aliased voucher (and no alias-first resolution) the refund callback of an in-flight
 EVM-originated transfer of the aliased token FAILS: the relayer's transaction is rolled back, nothing is refunded -/
@@ -735,7 +767,7 @@ theorem settle_refund_stuck (cfg : Cfg) (hs : Sound cfg) (hE : cfg.ackErrRefunds
   simp only at hp2
   have hpA : p.tok = .A := by rw [hp2, hB]
   have hin : (e.ch, e.seq) ∈ s.ctl.rel := h.eRel e he hB ⟨x, hx, hxk⟩
-  have hfound := refundFound_src cfg hs.refundSees hs.refundChan hs.refundSeq s.ctl (e.ch, e.seq) p
+  have hfound := refundFound_src cfg hs.refundSees hs.refundChan hs.refundSeq hs.deleteReports s.ctl (e.ch, e.seq) p
   have hform : refundForm cfg s.ctl (e.ch, e.seq) p = true := by
     simp [refundForm, hfound, hin, hs.refundConverts]
   have hres : resolve cfg s.ctl.vmeta false (.vA e.ch) = .vA e.ch := by
@@ -1069,6 +1101,10 @@ structure Life (c : Ctl) : Prop where
   eLife : ∀ e ∈ c.evmSent, (∃ x ∈ c.commits, x.1 = e.key) ∨ e.key ∈ c.ackedOk ∨ (∃ r ∈ c.refundLog, r.key = e.key)
   /-- an EVM-originated commitment is logged, and its token is FX or the aliased token -/
   cE : ∀ x ∈ c.commits, x.2.evm = true → (∃ e ∈ c.evmSent, e.key = x.1 ∧ e.tok = x.2.tok) ∧ (x.2.tok = .F ∨ x.2.tok = .A)
+  /-- a commitment that was not started from the EVM carries a coin of this chain -/
+  cC : ∀ x ∈ c.commits, x.2.evm = false → returning x.2.tok = true
+  /-- one commitment per (channel, sequence) -/
+  cU : ∀ x ∈ c.commits, ∀ y ∈ c.commits, x.1 = y.1 → x = y
 
 theorem life_init : Life init.ctl := by
   constructor <;> simp [init]
@@ -1077,6 +1113,10 @@ theorem sendBal_evm_tok {b b' : Bal} {l : Ch} {a : Addr} {t : Tok} {amt : Nat} (
     t = .F ∨ t = .A := by
   cases t <;> simp [sendBal] at h ⊢
   all_goals (split at h <;> simp at h)
+
+theorem sendBal_cosmos_tok {b b' : Bal} {l : Ch} {a : Addr} {t : Tok} {amt : Nat} (h : sendBal b l a t amt false = some b') :
+    returning t = true := by
+  cases t <;> simp [sendBal, returning] at h ⊢
 
 theorem life_send (cfg : Cfg) (s : State) (l : Ch) (sender : Addr) (t : Tok) (amt : Nat) (evm : Bool) (hi : Inv s.ctl)
     (h : Life s.ctl) : Life (doSend cfg s l sender t amt evm).1.ctl := by
@@ -1141,6 +1181,25 @@ theorem life_send (cfg : Cfg) (s : State) (l : Ch) (sender : Addr) (t : Tok) (am
         split
         · exact List.mem_cons_of_mem _ he
         · exact he
+    · intro x hx hev
+      simp only [sendCtl, List.mem_cons] at hx
+      rcases hx with hx | hx
+      · subst hx
+        simp only at hev
+        subst hev
+        exact sendBal_cosmos_tok hb
+      · exact h.cC x hx hev
+    · have freshC : ∀ x ∈ s.ctl.commits, x.1 ≠ (l, nextSeq s.ctl l) := by
+        intro x hx he
+        have := hi.fC x hx
+        rw [he] at this; exact absurd this (Nat.not_succ_le_self _)
+      intro x hx y hy hxy
+      simp only [sendCtl, List.mem_cons] at hx hy
+      rcases hx with hx | hx <;> rcases hy with hy | hy
+      · rw [hx, hy]
+      · subst hx; exact absurd hxy.symm (freshC y hy)
+      · subst hy; exact absurd hxy (freshC x hx)
+      · exact h.cU x hx y hy hxy
 
 theorem life_settleState (cfg : Cfg) (hR : Removes cfg) (s s' : State) (l : Ch) (seq : Seq) (p : Pkt) (mode : Mode)
     (h : Life s.ctl) (hr : settleState cfg s l seq p mode = some s') : Life s'.ctl := by
@@ -1206,13 +1265,24 @@ theorem life_settleState (cfg : Cfg) (hR : Removes cfg) (s s' : State) (l : Ch) 
     rw [hcom] at hx
     rw [hev]
     exact h.cE x (mem_dropCommit.1 hx).1 hxe
+  · intro x hx hxe
+    rw [hcom] at hx
+    exact h.cC x (mem_dropCommit.1 hx).1 hxe
+  · intro x hx y hy hxy
+    rw [hcom] at hx hy
+    exact h.cU x (mem_dropCommit.1 hx).1 y (mem_dropCommit.1 hy).1 hxy
 
 theorem life_step (cfg : Cfg) (hR : Removes cfg) (s : State) (op : Op) (hi : Inv s.ctl) (h : Life s.ctl) :
     Life (stepWith cfg s op).1.ctl := by
   cases op with
   | reset => exact life_init
-  | chan l r => exact ⟨h.relC, h.eLife, h.cE⟩
-  | vmeta l => exact ⟨h.relC, h.eLife, h.cE⟩
+  | chan l r => exact ⟨h.relC, h.eLife, h.cE, h.cC, h.cU⟩
+  | vmeta l => exact ⟨h.relC, h.eLife, h.cE, h.cC, h.cU⟩
+  | seqset l n =>
+    simp only [stepWith]
+    split
+    · exact ⟨h.relC, h.eLife, h.cE, h.cC, h.cU⟩
+    · exact h
   | fund a t l amt =>
     simp only [stepWith]
     split <;> exact h
@@ -1237,6 +1307,53 @@ theorem run_life (cfg : Cfg) (hs : Sound cfg) (hR : Removes cfg) (ops : List Op)
   induction ops generalizing s with
   | nil => exact ⟨hi, h⟩
   | cons op ops ih => exact ih _ (step_inv cfg hs s op hi) (life_step cfg hR s op hi h)
+
+/-- a transfer that was NOT started from the EVM is refunded in the form it was sent in: the coin goes back to the
+sender's bank balance, no ERC-20 balance changes, whatever else is in flight -/
+theorem settle_refund_cosmos (cfg : Cfg) (hs : Sound cfg) (hE : cfg.ackErrRefunds = true) (hT : cfg.timeoutRefunds = true)
+    (hG : cfg.refundGuarded = true) (s : State) (l : Ch) (seq : Seq) (p : Pkt) (mode : Mode) (hm : mode ≠ .ackOk)
+    (hl : Life s.ctl) (hlk : lookup (l, seq) s.ctl.commits = some p) (hev : p.evm = false) :
+    (stepWith cfg s (.settle l seq mode)).2.isDone →
+      (stepWith cfg s (.settle l seq mode)).1.bal.erc = s.bal.erc ∧
+      (p.sender ≠ escrow l → sget (stepWith cfg s (.settle l seq mode)).1.bal.bank (p.sender, bankDenom p.tok l) =
+        sget s.bal.bank (p.sender, bankDenom p.tok l) + p.amt) ∧
+      (∀ a d, d ≠ bankDenom p.tok l → sget (stepWith cfg s (.settle l seq mode)).1.bal.bank (a, d) = sget s.bal.bank (a, d)) ∧
+      (stepWith cfg s (.settle l seq mode)).1.ctl.refundLog = ⟨l, seq, p.sender, p.tok, p.amt, false⟩ :: s.ctl.refundLog := by
+  have hret : returning p.tok = true := hl.cC _ (lookup_mem hlk) hev
+  -- no record under this key: records belong to EVM-started commitments, and the key has one commitment only
+  have hnot : (l, seq) ∉ s.ctl.rel := by
+    intro hin
+    obtain ⟨x, hx, hxk, hxe, _⟩ := hl.relC _ hin
+    have := hl.cU x hx _ (lookup_mem hlk) hxk
+    rw [this] at hxe
+    simp only at hxe
+    rw [hev] at hxe; cases hxe
+  have hfound : refundFound cfg s.ctl (l, seq) p = none := by
+    rw [refundFound_src cfg hs.refundSees hs.refundChan hs.refundSeq hs.deleteReports]
+    simp [hnot]
+  have hform : refundForm cfg s.ctl (l, seq) p = false := by simp [refundForm, hfound, hG]
+  have hnib : (bankDenom p.tok l).isIbc = false := by
+    cases ht : p.tok <;> simp_all [returning, bankDenom, Denom.isIbc]
+  simp only [stepWith, settle, hlk]
+  have hmode : settleState cfg s l seq p mode = refundState cfg s l seq p true := by
+    cases mode with
+    | ackOk => exact absurd rfl hm
+    | ackErr => simp [settleState, hE]
+    | timeout => simp [settleState, hT]
+  rw [hmode]
+  simp only [refundState, refundApp, hret, ↓reduceIte]
+  by_cases hlt : sget s.bal.bank (escrow l, bankDenom p.tok l) < p.amt
+  · simp only [hlt, ↓reduceIte]
+    intro hd; obtain ⟨_, _, _, _, _, _, hd⟩ := hd; cases hd
+  · simp only [hlt, ↓reduceIte, refundHook, toBaseCoin, hnib, Bool.not_false, hform, Bool.false_eq_true]
+    intro _
+    refine ⟨rfl, ?_, ?_, ?_⟩
+    · intro hne
+      have e1 : ¬ (escrow l = p.sender) := fun e => hne e.symm
+      simp [Bal.move, get_add, get_sub, e1]
+    · intro a d hd
+      simp [Bal.move, get_add, get_sub, Ne.symm hd]
+    · simp [refundCtl, hform]
 
 /-! ## text: separators -/
 
